@@ -125,6 +125,7 @@ func cmdCheck(repo, verifDir, id, tier string) int {
 		fmt.Fprintln(os.Stderr, "gsv: bad filter regexp in pack", err1, err2)
 		return 2
 	}
+	currentPackID = id
 	e, err := loadEngine(repo, verifDir, pack.Packages)
 	if err != nil {
 		fmt.Fprintln(os.Stderr, "gsv: load:", err)
